@@ -86,8 +86,12 @@ class ControlServer(ABC, Generic[ClientT]):
         enters the session's `listen` loop.
         """
         session = ControlSession(self, reader, writer)
-        await session.client_handshake()
-        await session.listen()
+        try:
+            await session.client_handshake()
+            await session.listen()
+        finally:
+            # Without this the server can not finish closing.
+            writer.close()
 
     @abstractmethod
     async def _get_server_instance(
